@@ -154,7 +154,11 @@ Seeds ==
           <<NewArgs("align", NUCLEOTIDS, 0, <<Row(nA, <<65, 67, 71, 84>>), Row(nB, <<65, 45, 71, 78>>), Row(nC, <<84, 84, 97, 45>>)>>),
             NewArgs("bag", NUCLEOTIDS, 0, <<Row(nA, <<65, 84, 71, 45, 67>>), Row(nB, <<71>>)>>)>>,
           <<NewArgs("align", AMINOACIDS, 0, <<Row(nA, <<77, 75, 45>>), Row(nB, <<77, 81, 88>>)>>),
-            NewArgs("align", NUCLEOTIDS, 0, <<Row(nC, <<65, 84, 71>>)>>)>>}
+            NewArgs("align", NUCLEOTIDS, 0, <<Row(nC, <<65, 84, 71>>)>>)>>,
+          \* proteins with gaps, '.', '*' in rows that differ elsewhere (distance computations compare them pairwise);
+          \* reads whose best ORF is on the minus strand (CTATTTCAT) followed by one with a longer ORF on the plus strand
+          <<NewArgs("align", AMINOACIDS, 0, <<Row(nA, <<65, 82, 78, 68, 45, 81, 69, 42>>), Row(nB, <<65, 82, 75, 68, 67, 81, 46, 71>>), Row(nC, <<65, 82, 78, 69, 67, 81, 69, 71>>)>>),
+            NewArgs("bag", NUCLEOTIDS, 0, <<Row(nA, <<71, 67, 84, 65, 84, 84, 84, 67, 65, 84, 71, 71>>), Row(nB, <<67, 67, 65, 84, 71, 65, 65, 65, 67, 67, 67, 84, 65, 71, 67, 67>>)>>)>>}
     [] Profile = "C04b" ->
          {<<NewArgs("align", NUCLEOTIDS, 0, <<Row(nA, <<65, 67, 71, 84, 65>>), Row(nB, <<67, 45, 84, 65, 71>>)>>),
             NewArgs("align", NUCLEOTIDS, 0, <<Row(nA, <<110, 110>>), Row(nB, <<121, 121>>)>>)>>}
@@ -292,11 +296,11 @@ InstC15(h) ==
   \cup {Inst("MaskPositions", r, [ref |-> rf, pos |-> ps, repl |-> rp, nogap |-> ng, noref |-> FALSE]) :
            rf \in {<<>>, <<114, 50>>}, ps \in {<<0, 1>>, <<1, 0>>, <<0, 2, 1>>, <<W - 1>>, <<0, W>>, <<1, 1>>}, rp \in {sGAP, sMAJ, <<>>}, ng \in Bools}
 \* C19: a copy-producing or read-only operation, then a mutation of any live object (original or copy)
-Queries == {"fasta", "phylip", "nexus", "clustal", "stockholm", "paml", "dist", "protdist", "sw", "swatg", "orf", "string", "phaseref", "phasentref"}
+Queries == {"fasta", "phylip", "nexus", "clustal", "stockholm", "paml", "dist", "protdist", "protdist2", "sw", "swatg", "orf", "string", "phaseref", "phasentref"}
 InstC19(h) ==
   IF Len(hist) = 2 THEN
     UNION {
-      {Inst("CloneSeqBag", r, NoArg), Inst("Unalign", r, NoArg)}
+      {Inst("CloneSeqBag", r, NoArg), Inst("Unalign", r, NoArg), Inst("LongestORFObj", r, [rev |-> TRUE]), Inst("LongestORFObj", r, [rev |-> FALSE])}
       \cup (IF IsAlign(h[r]) THEN
               {Inst("Clone", r, NoArg), Inst("Transpose", r, NoArg)}
               \cup {Inst("SubAlign", r, [start |-> s, len |-> n]) : s \in 0..L(h[r]), n \in 0..L(h[r])}
@@ -367,6 +371,9 @@ Next == /\ ~Final
                 ELSE LET R == Step(heap, st.op, st.recv, st.a) IN
                      IF R.j THEN /\ heap' = ApplyRes(heap, st.recv, R)
                                  /\ stop' = ~(\A i \in 1..Len(heap') : Rect(heap'[i]))   \* see RaggedOnlyBy3Frames
+                     ELSE IF st.op \in UnjudgedCreators
+                     THEN heap' = heap /\ stop' = FALSE    \* an object the machine does not predict joined the real heap: the
+                                                           \* history goes on over the objects the machine knows
                      ELSE heap' = heap /\ stop' = TRUE      \* state after the call is not pinned: the history ends
 Spec == Init /\ [][Next]_<<heap, hist, stop>>
 
